@@ -265,8 +265,10 @@ func longestPrefix(s1, s2 string) int {
 			startIndex = i
 			state = startByte
 		case endByte:
-			state = endByte
-			endIndex = i
+			if s2[i] == endByte { // 只有两者同时结束，才算离开了参数部分。
+				state = endByte
+				endIndex = i
+			}
 		}
 
 		if s1[i] != s2[i] {
